@@ -15,8 +15,8 @@ SELF_IDL = dict(test="TestSelfIDL", checks=2000)
 
 PLAN = {
     "C01": dict(
-        quick=[dict(test="TestC01Rapid", checks=3000), *shards("TestC01Enum", 4)],
-        thorough=[*shards("TestC01Rapid", 12, checks=20000), *shards("TestC01Enum", 4), dict(fuzz="FuzzC01Rapid", seconds=60)],
+        quick=[dict(test="TestC01Rapid", checks=3000), *shards("TestC01Enum", 4), dict(test="TestC01Crosstalk")],
+        thorough=[*shards("TestC01Rapid", 12, checks=20000), *shards("TestC01Enum", 4), *shards("TestC01Crosstalk", 2), dict(test="TestC01Crosstalk", env={"GOMAXPROCS": "2"}), dict(fuzz="FuzzC01Rapid", seconds=60)],
     ),
     "C03": dict(
         quick=[dict(test="TestC03Rapid", checks=1200), *shards("TestC03Matrix", 4)],
@@ -579,6 +579,7 @@ for _k, _v in _ADD.items():
 
 
 # ---- additions of the sixth seed round (see DESIGN.md 11.5) -------------------------------------------------------
+RULE["C01"] += (" Plus 8-32 (thorough 64) connections with three large replies each, written at the same time, in half of the cases after a refused reply attempt on every connection.")
 RULE["C01"] += " One reply in twelve has parameters without a JSON encoding (NaN): refused, reported to the handler, nothing written."
 RULE["C02"] += (" The service arm also provokes the service's own error replies (unknown interface / method / built-in method, the four helpers) with "
                 "hostile strings (NUL, BEL, VT, ESC, DEL, U+E0001, U+10FFFD, escape look-alikes); every other concurrent case starts each connection with a "
